@@ -55,6 +55,7 @@ type Env struct {
 	cur       *Frame
 	quantDepth int
 	ghostAsserts int
+	aliases      map[string]string // contract name -> renamed local (verifyItem's rebinding search)
 	modelTerms []string // terms to evaluate on sat (entry-state description)
 	modelNames []string
 	usedContracts map[string]bool
